@@ -81,6 +81,7 @@ package httpgrpc
 //@   ensures[C03] result != nil && fresh(result)
 //@   loop loop#1 invariant[C03] visited_keys_copied_others_absent: result != nil && fresh(result) && (forall k string :: (iter_visited(k) ==> has(result, k) && result[k] != nil && len(result[k].Values) == len(md[k])) && (!iter_visited(k) ==> !has(result, k)) && (iter_visited(k) ==> has(md, k)))
 //@   ensures[C03] exactly_the_handlers_keys_with_as_many_values: forall k string :: has(result, k) == has(md, k) && (has(md, k) ==> result[k] != nil && len(result[k].Values) == len(md[k]))
+//@   ensures[C03] values_are_carried_over_not_rewritten: !called("strings.rewrite")
 //@   modifies nothing
 //
 //@ func readSizePreface
@@ -240,6 +241,7 @@ package httpgrpc
 // stream). It is the only closer of cs.rCh and the only caller of ready.Done.
 //@ define reply_body = lastresult("http.RoundTripper.RoundTrip", 0).Body
 //@ func (*clientStream).doHttpCall
+//@   locks_only[C05] &cs.rMu
 //@   requires wg_count(&cs.ready) == 1
 //@   requires !closed(cs.rCh) && cs.rCh != nil
 //@   requires !held(&cs.rMu)
